@@ -13,9 +13,12 @@ pub mod c24;
 pub mod c25;
 pub mod c26;
 pub mod c27;
+pub mod c29;
 pub mod c30;
 pub mod c35;
+pub mod c36;
 pub mod c37;
+pub mod c38;
 pub mod c40;
 
 pub fn run(id: &str, run: &mut Run) {
@@ -36,6 +39,9 @@ pub fn run(id: &str, run: &mut Run) {
         "C37" => c37::run(run),
         "C30" => c30::run(run),
         "C24" => c24::run(run),
+        "C29" => c29::run(run),
+        "C36" => c36::run(run),
+        "C38" => c38::run(run),
         _ => machinery_failure(&format!("no check for property {}", id)),
     }
 }
@@ -58,6 +64,9 @@ pub fn replay(id: &str, case: &Value, run: &mut Run) {
         "C37" => c37::replay(case, run),
         "C30" => c30::replay(case, run),
         "C24" => c24::replay(case, run),
+        "C29" => c29::replay(case, run),
+        "C36" => c36::replay(case, run),
+        "C38" => c38::replay(case, run),
         _ => machinery_failure(&format!("no replay for property {}", id)),
     }
 }
@@ -70,6 +79,7 @@ pub fn child(id: &str, args: &[String]) {
         "C02" => c02::child(args),
         "C30" => c30::child(args),
         "C24" => c24::child(args),
+        "C29" => c29::child(args),
         _ => machinery_failure(&format!("no child mode for property {}", id)),
     }
 }
